@@ -3,12 +3,21 @@ from vlib import Ob
 LEVEL_TEXT = ("K: canonicity predicates on all 256 input bits (real ed25519_ref10.c); G: crypto_core_ed25519 / "
               "crypto_scalarmult_ed25519 / ristretto255 / hash-to-curve drivers over an abstract group and scalar field "
               "(uninterpreted functions): validation order, error returns, clamping, the exact 64-byte values handed to "
-              "the modular reduction, expand_message_xmd layout.")
+              "the modular reduction, expand_message_xmd layout. E2 irsym: field kernels (limb mode: integer polynomials + "
+              "intervals, result == field operation mod 2^255-19, no wrap-around); sc25519_reduce/mul/muladd/invert == "
+              "integer arithmetic mod L for all inputs (limb mode, congruence re-checked by z3); ge25519 add/sub/madd/dbl and "
+              "representation changes == Edwards addition law (ring mode, polynomial identities over GF(p) modulo the curve "
+              "equation); ge25519_scalarmult(_base) == a*P over integer multiples with the signed radix-16 recoding run as "
+              "real code; 256-entry base table exhaustively; expand_message_xmd of the real core_h2c.c == RFC 9380 over an "
+              "abstract hash for |DST| in {0..255, 256, 257, 300, 500} -- the |DST| > 255 shapes deviate (known finding "
+              "h2c-oversize-dst, known_findings.json). Main-subgroup test: ge25519_mul_l == L*P (E2 multiples mode, the real "
+              "addition chain) and the real predicate on every representation of L*P (CBMC, mul_l cut): accepts the neutral "
+              "element, refuses X != 0 -- and ACCEPTS L*P = (0,-1) (known finding main-subgroup-order-2L).")
 TRUSTED = ["CBMC 6.11 + uninterpreted functions", "abstract group model (stubs/ideal_ed25519.c)", "L and p constants transcribed in the harness"]
 ASSUMPTIONS = ["scalar_add/sub: inputs reduced (as documented)", "scalar_random: accepted within 2 draws"]
-OUTSIDE = ["point decoding (square-root chain), ge25519_double_scalarmult_vartime (sliding windows with scalar-dependent control flow), is_on_main_subgroup / mul_l; the composition of the decided layers (field kernels [E2 limb] -> group operations == addition law [E2 ring] -> scalar-multiplication algorithms == a*P over abstract multiples [E2] + table look-ups [CBMC] + base table [exhaustive]) is on paper",
+OUTSIDE = ["point decoding (square-root chain), ge25519_double_scalarmult_vartime (sliding windows with scalar-dependent control flow); the composition of the decided layers (field kernels [E2 limb] -> group operations == addition law [E2 ring] -> scalar-multiplication algorithms == a*P over abstract multiples [E2] + table look-ups [CBMC] + base table [exhaustive]) is on paper",
            "sc25519_reduce / mul / muladd: the value before serialisation lying in [0, 2^256) and the output being the canonical representative (< L) -- the congruence mod L, the absence of int64 overflow for all inputs and the inversion exponent ARE decided (E2 limb mode)",
-           "Elligator / Ristretto map formulas and the Ristretto encode/decode formulas (abstract here; the expand_message_xmd layer and the NU / RO data flow ARE decided)", "main-subgroup test"]
+           "Elligator / Ristretto map formulas and the Ristretto encode/decode formulas (abstract here; the expand_message_xmd layer and the NU / RO data flow ARE decided)"]
 CORE = ["crypto_core/ed25519/core_ed25519.c", "crypto_scalarmult/ed25519/ref10/scalarmult_ed25519_ref10.c", "sodium/utils.c", "crypto_verify/verify.c"]
 STUBS = ["ideal_ed25519.c", "ideal_hash.c", "rng.c", "misuse.c", "libc.c", "x86_builtins.c"]
 
@@ -26,6 +35,11 @@ def obligations(tier):
     obs.append(Ob("canonical-predicates", "C07/predicates.c", units=["crypto_core/ed25519/ref10/ed25519_ref10.c", "sodium/utils.c"],
                   stubs=["libc.c", "misuse.c"], unwind=40, timeout=900, nochecks=True, family="canonical-predicates",
                   desc="sc25519_is_canonical <=> s < L ; ge25519_is_canonical <=> y < p", bounds="all 256 input bits"))
+    obs.append(Ob("main-subgroup-predicate", "C07/subgroup.c", units=["crypto_core/ed25519/ref10/ed25519_ref10.c", "sodium/utils.c"],
+                  stubs=["libc.c", "misuse.c"], instrument=[["--replace-calls", "ge25519_mul_l:stub_mul_l"]], unwind=40, timeout=900, nochecks=True,
+                  family="canonical-predicates", replay="model",
+                  desc="ge25519_is_on_main_subgroup(P) = 1 <=> L*P is the neutral element, for every representation of L*P with X != 0, (0:Z:Z) or (0:-Z:Z); ge25519_mul_l cut (== L*P: E2 multiples mode)",
+                  bounds="all field-element byte strings (incl. non-canonical), all Z != 0"))
     for part, nm in ((0, "scalar-ops"), (1, "point-validate-add-sub"), (3, "random")):
         obs.append(Ob("core-" + nm, "C07/core.c", units=CORE, stubs=STUBS, defs={"PART": part}, unwind=70, timeout=900, family="core-ed25519-drivers",
                       desc="crypto_core_ed25519 driver == spec over abstract group/scalars", bounds="all input bytes"))
